@@ -290,18 +290,121 @@ theorem duties_driveEvs_bounds (pins : Int × Int × Int) (eff : K) :
   rw [dutiesL_driveEvs, List.mem_singleton] at hd
   subst hd; exact dutyL_bounds _
 
+theorem fabs_eq (c : K) : Host.Motor.fabs c = |c| := by
+  unfold Host.Motor.fabs
+  rw [zero_eq]
+  split_ifs with h1 h2
+  · exact (abs_of_neg h1).symm
+  · exact (abs_of_pos h2).symm
+  · have : c = 0 := le_antisymm (not_lt.mp h2) (not_lt.mp h1)
+    rw [this, abs_zero]
+
 theorem backward_eq (v : Val K) :
     FMotor.clampSpeed (-(if v.toF < (fzero : K) then -v.toF else v.toF)) =
       Host.Motor.clamp (.flt (-(Host.Motor.fabs (Host.Motor.clamp v)))) := by
-  rw [clampSpeed_eq, clamp_eq, clamp_eq, C19.toF_flt, fzero_eq]
-  unfold Host.Motor.fabs
-  rw [zero_eq]
-  split_ifs <;> first | rfl | linarith | (exfalso; linarith)
+  have hc := clamp_bounds v
+  have habs : |Host.Motor.clamp v| ≤ 1 := abs_le.mpr hc
+  rw [fabs_eq, clamp_id (by linarith [abs_nonneg (Host.Motor.clamp v)]) (by linarith [abs_nonneg (Host.Motor.clamp v)]),
+    fzero_eq, clamp_eq]
+  generalize v.toF = x
+  rcases lt_or_ge x 0 with hx | hx
+  · rw [if_pos hx, clampSpeed_eq]
+    split_ifs <;> first | (exfalso; linarith) | simp only [abs_of_neg hx, abs_one, abs_neg, neg_neg]
+  · rw [if_neg (not_lt.mpr hx), clampSpeed_eq]
+    split_ifs <;> first | (exfalso; linarith) | simp only [abs_of_nonneg hx, abs_one]
 
 theorem host_clamp_clamp (v : Val K) : Host.Motor.clamp (.flt (Host.Motor.clamp v)) = Host.Motor.clamp v :=
   clamp_id (clamp_bounds v).1 (clamp_bounds v).2
 
 theorem clampSpeed_clampSpeed (x : K) : FMotor.clampSpeed (FMotor.clampSpeed x) = FMotor.clampSpeed x :=
   clampSpeed_id (clampSpeed_bounds x).1 (clampSpeed_bounds x).2
+
+/-! ## Led -/
+
+def levelL : Ev → Option Int
+  | .dWrite _ l => some (if l = 0 then 0 else 255)
+  | .aWrite _ d => some d
+  | _ => none
+
+def LedInvL (l : FLed) : Prop := 0 ≤ l.brightness ∧ l.brightness ≤ 255 ∧ (l.state = true ↔ 0 < l.brightness)
+
+theorem toULong_of_not_lt {d : Val K} (h : ¬ Val.lt d (.int 0) = true) : ∃ ms, toULong d = some ms := by
+  cases d with
+  | int n =>
+    have : ¬ n < 0 := by simpa [Val.lt] using h
+    exact ⟨n, by simp [toULong, this]⟩
+  | flt x =>
+    have : ¬ x < 0 := by
+      rw [lt_iff, C19.toF_flt, C19.toF_int] at h
+      simpa using h
+    exact ⟨Num.trunc x, by simp [toULong, this]⟩
+
+theorem toCInt_int (n : Int) : toCInt (Val.int n : Val K) = n := rfl
+
+/-! ### blink -/
+
+theorem dutiesL_blinkLoop (pin d : Int) (n : Nat) : dutiesL (FLed.blinkLoop pin d n) = [] := by
+  induction n with
+  | zero => rfl
+  | succ n ih => simp [FLed.blinkLoop, ih]
+
+theorem delaysL_blinkLoop (pin d : Int) (n : Nat) : delaysL (FLed.blinkLoop pin d n) = List.replicate (2 * n) d := by
+  induction n with
+  | zero => rfl
+  | succ n ih =>
+    simp only [FLed.blinkLoop, delaysL_append, ih]
+    have : 2 * (n + 1) = (2 * n + 1) + 1 := by ring
+    rw [this, List.replicate_succ, List.replicate_succ]
+    simp
+
+/-! ### fades -/
+
+theorem fadeIn_next (v k : Int) : (if v + k > 255 then 255 else v + k) = min 255 (v + k) := by
+  split <;> omega
+
+theorem fadeOut_next (v k : Int) : (if v - k < 0 then 0 else v - k) = max 0 (v - k) := by
+  split <;> omega
+
+theorem fadeIn_duties (pin k ms : Int) (h : 0 < k) (v : Int) (hv : 0 ≤ v) :
+    ∀ d ∈ dutiesL (FLed.fadeInLoop pin k ms h v), 0 ≤ d ∧ d ≤ 255 := by
+  fun_induction FLed.fadeInLoop pin k ms h v with
+  | case1 v hlt ih =>
+    intro d hd
+    simp only [List.cons_append, List.nil_append, dutiesL_cons_aWrite, dutiesL_cons_delay, List.mem_cons] at hd
+    rcases hd with hd | hd
+    · omega
+    · exact ih (by split <;> omega) d hd
+  | case2 v hge => simp
+
+theorem fadeOut_duties (pin k ms : Int) (h : 0 < k) (v : Int) (hv : v ≤ 255) :
+    ∀ d ∈ dutiesL (FLed.fadeOutLoop pin k ms h v), 0 ≤ d ∧ d ≤ 255 := by
+  fun_induction FLed.fadeOutLoop pin k ms h v with
+  | case1 v hlt ih =>
+    intro d hd
+    simp only [List.cons_append, List.nil_append, dutiesL_cons_aWrite, dutiesL_cons_delay, List.mem_cons] at hd
+    rcases hd with hd | hd
+    · omega
+    · exact ih (by split <;> omega) d hd
+  | case2 v hge => simp
+
+theorem fadeIn_delays (pin k ms : Int) (h : 0 < k) (v : Int) :
+    delaysL (FLed.fadeInLoop pin k ms h v) = (Host.Led.fadeInLevels v k h).map (fun _ => ms) := by
+  fun_induction FLed.fadeInLoop pin k ms h v with
+  | case1 v hlt ih =>
+    rw [Host.Led.fadeInLevels, dif_pos hlt]
+    simp only [List.cons_append, List.nil_append, delaysL_cons_aWrite, delaysL_cons_delay, List.map_cons, ih,
+      fadeIn_next]
+  | case2 v hge =>
+    rw [Host.Led.fadeInLevels, dif_neg hge]; rfl
+
+theorem fadeOut_delays (pin k ms : Int) (h : 0 < k) (v : Int) :
+    delaysL (FLed.fadeOutLoop pin k ms h v) = (Host.Led.fadeOutLevels v k h).map (fun _ => ms) := by
+  fun_induction FLed.fadeOutLoop pin k ms h v with
+  | case1 v hlt ih =>
+    rw [Host.Led.fadeOutLevels, dif_pos hlt]
+    simp only [List.cons_append, List.nil_append, delaysL_cons_aWrite, delaysL_cons_delay, List.map_cons, ih,
+      fadeOut_next]
+  | case2 v hge =>
+    rw [Host.Led.fadeOutLevels, dif_neg hge]; rfl
 
 end Reduino.Lemmas.C04
